@@ -380,6 +380,35 @@ def run(ctx: Ctx) -> int:
                                "key": "diff:" + json.dumps([[d0["name"], (d0["expected"] or {}).get("kind"), (d0["got"] or {}).get("kind"), d0.get("what")] for d0 in diffs])[:200]})
             if ctx.traces % 700 == 1:
                 ctx.sample({"source": src, "pyexec": py, "real": real})
+    # ---- multi-module packages: class vs exception class when the exception-ness comes through another module
+    from .. import families, procrun
+    from .. import projects as P
+    mm = list(families.t1_exceptions()) + list(families.t1_base_chains())[::9] + list(families.t4_cycles())[:2]
+    oracles: Dict[int, Any] = {}
+    mm_classes = 0
+    for res in procrun.explore(ctx, mm):
+        pid = res["pid"]
+        if pid not in oracles:
+            d0 = ctx.scratch / f"mm_{pid}"
+            d0.mkdir()
+            P.write_project(res["project"], d0)
+            oracles[pid] = P.cpython_oracle(res["project"], d0)
+        o = oracles[pid]
+        if "failed" in o or o.get("errors"):
+            continue
+        by_site = {json.dumps(e["site"]): (k, e) for k, e in res["real"]["dump"].items() if e["cls"] == "Class"}
+        for skey, info in o["classes"].items():
+            if skey not in by_site:
+                continue
+            k, e = by_site[skey]
+            mm_classes += 1
+            want = "EXCEPTION" if info["isexc"] else "CLASS"
+            if e["kind"] != want:
+                ctx.violation({"invariant": "KindIsWhatPythonGives", "class": k, "expected": want, "got": e["kind"], "diff": [],
+                               "program": {}, "source": "", "origin": {"family": res["project"]["family"], **res["project"]["meta"],
+                                                                          "sched": res["sched"], "project": procrun.strip(res["project"])},
+                               "key": f"mmkind:{res['project']['family']}:{res['project']['meta']}:{k}"})
+    ctx.extra["multi_module_classes_compared_with_cpython"] = mm_classes
     # negative control: a corrupted real table must differ from the reference
     p0 = next(p for p in progs if p["py"][0]["names"])
     t = spec_table(p0["py"])
@@ -399,6 +428,17 @@ def run(ctx: Ctx) -> int:
 
 def replay(ctx: Ctx, path: str) -> int:
     w = json.load(open(path))
+    if w.get("invariant") == "KindIsWhatPythonGives":
+        from .. import projects as P
+        o = w["origin"]
+        proj = {**o["project"], "family": "", "meta": {}}
+        real = P.real_build(proj, o["sched"], ctx.scratch)
+        bad = real["dump"].get(w["class"], {}).get("kind") != w["expected"]
+        print("replay:", "still differs" if bad else "holds now")
+        if bad:
+            print(f"VIOLATION property=C03 replay={path}")
+        ctx.cleanup()
+        return 1 if bad else 0
     src = w["source"]
     cp = cpython_tables(ctx, [src])[0]
     pd = pd_tables([src])[0]
